@@ -145,7 +145,7 @@ def twin_below(task: dict) -> str:
     tt = task["tt"]
     n = len(tt)
     srcs = [i for i in range(n) if all(tt[i][s] == ((s >> i) & 1) for s in range(1 << n))]
-    full = [{"op": "bfs", "n": 1, "lvl": -1, "size": -1}, {"op": "allsets"}]
+    full = task.get("ops") or [{"op": "bfs", "n": 1, "lvl": -1, "size": -1}, {"op": "allsets"}]
     a = rec.record_trace(task["tid"], tt, full)
     out, singles = [], [a]
     for val in range(1 << len(srcs)):
